@@ -231,6 +231,66 @@ CONSTRAINT Bound
 """)
 
 
+def driven_frame_rates(ctx, rng):
+    """the angle rate with a DRIVEN frame as one partner (time-dependent orientation, no velocity coordinates): on the joint manifold the rate of the
+    tracked angle along the motion equals l_dot (floats, central differences); both orders of the partners, all axes, oblique bases"""
+    from cardillo import System
+    from cardillo.discrete import Frame, RigidBody
+    from cardillo.constraints import Revolute
+    from cardillo.math import Exp_SO3, Spurrier, ax2skew
+    from cardillo.solver import SolverOptions
+
+    n = 0
+    H = 1e-5
+    rv = lambda s=1.0: np.array([rng.uniform(-s, s) for _ in range(3)])
+    for order in ("frame-body", "body-frame"):
+        for axis in range(3):
+            A0, w, r0, v0 = Exp_SO3(rv(1.5)), rv(1.2), rv(), rv()
+            Af = lambda t, A0=A0, w=w: A0 @ Exp_SO3(t * w)
+            frame = Frame(r_OP=lambda t, r0=r0, v0=v0: r0 + t * v0, r_OP_t=lambda t, v0=v0: v0, r_OP_tt=lambda t: np.zeros(3),
+                          A_IB=Af, A_IB_t=lambda t, Af=Af, w=w: Af(t) @ ax2skew(w), A_IB_tt=lambda t, Af=Af, w=w: Af(t) @ ax2skew(w) @ ax2skew(w))
+            t0 = 0.0
+            A_IJ0 = Exp_SO3(rv(1.5)); A20 = Exp_SO3(rv(1.5)); angle0 = rng.choice([0.0, 0.6])
+            body = RigidBody(1.0, np.diag([1.0, 2.0, 3.0]), q0=np.concatenate([r0, Spurrier(A20)]), name=f"b{rng.randrange(10**9)}")
+            system = System(t0=t0)
+            s1, s2 = (frame, body) if order == "frame-body" else (body, frame)
+            joint = Revolute(s1, s2, axis=axis, angle0=angle0, r_OJ0=r0.copy(), A_IJ0=A_IJ0)
+            system.add(frame, body, joint)
+            system.assemble(options=SolverOptions(compute_consistent_initial_conditions=False))
+            e = np.zeros(3); e[axis] = 1.0
+            phid = rng.choice([1.3, -0.8]) * (1.0 if order == "frame-body" else -1.0)     # the body turns relative to the frame about the common axis
+
+            def A2(t):
+                AJ = Af(t) @ Af(t0).T @ A_IJ0                  # the joint basis carried by the frame
+                return AJ @ Exp_SO3(phid * (t - t0) * e) @ A_IJ0.T @ A20
+
+            def qof(t):
+                return np.concatenate([r0 + t * v0, Spurrier(A2(t))])
+
+            for t in (0.1, 0.35, 0.6):
+                q, qp, qm = qof(t), qof(t + H), qof(t - H)
+                W = A2(t).T @ (A2(t + H) - A2(t - H)) / (2 * H)
+                u = np.concatenate([v0, 0.5 * np.array([W[2, 1] - W[1, 2], W[0, 2] - W[2, 0], W[1, 0] - W[0, 1]])])
+                where = dict(partners=order, axis=axis, t=t, carrier="frame with time-dependent orientation", q=q.tolist(), u=u.tolist())
+                try:
+                    lm = joint.l(t - H, qm); l = joint.l(t, q); lp = joint.l(t + H, qp)
+                    ld = joint.l_dot(t, q, u)
+                    rate = (lp - lm) / (2 * H)
+                    n += 1
+                    expd = phid if order == "frame-body" else -phid
+                    if not (abs(rate - ld) <= 1e-6 * (1 + abs(rate))):
+                        ctx.violation(f"l_dot:driven-frame:{order}", f"l_dot = {ld!r} but the tracked angle changes at the rate {rate!r} along the motion (relative spin about the axis "
+                                      f"{expd!r}) at {where}", where)
+                        break
+                    if not (abs(rate - expd) <= 1e-6 * (1 + abs(expd))):
+                        ctx.violation(f"angle:driven-frame:{order}", f"the tracked angle changes at the rate {rate!r}, the relative spin about the axis is {expd!r} at {where}", where)
+                        break
+                except Exception as ex:
+                    ctx.violation(f"l_dot:driven-frame:{order}:raises:{type(ex).__name__}", f"{type(ex).__name__}: {ex} at {where}", where)
+                    break
+    return n
+
+
 def run(ctx):
     ctx.level = "model_checking"
     rng = ctx.rng
@@ -306,6 +366,8 @@ def run(ctx):
         traces += 2
     ctx.log(f"[C25] simulation: {len(behs)} behaviours of depth {depth}, max |k| = {maxabs} sectors of {N}")
 
+    ndriven = driven_frame_rates(ctx, rng)
+    ctx.log(f"[C25] driven-frame rate checks: {ndriven}")
     ctx.coverage = {
         "states": tot_states,
         "transitions": tot_trans,
@@ -325,6 +387,7 @@ def run(ctx):
         "rotation positions on quadrant boundaries are realised with integer quaternions so x,y are exactly 0/±1",
         "angle compared at 1e-9 relative; tracker state compared exactly except on boundaries of float-frame configs",
         "l_dot oracle: (R(P2) w2 - R(P1) w1) . e_c1 computed by the harness' own quaternion-to-matrix routine",
+        "frames with time-dependent orientation as joint partners: rate of the tracked angle along a motion on the joint manifold (central differences, 1e-6) against l_dot and the prescribed relative spin",
     ]
 
 
